@@ -278,7 +278,7 @@ func checkC12(c *Ctx) *report.Result {
 
 	// ---- W-irq: the interrupt request is wired to the routine's result (rule L3 of C26, evaluated on this tree)
 	r.Rule("W-irq", "the frame loop requests the timer interrupt exactly when the per-cycle routine returns true, and nothing else requests it (rule L3 of C26)")
-	adopt(r, checkC26(c), map[string]string{"L3": "W-irq"}, "a request that is dropped, delayed or made conditional breaks 'exactly one interrupt per overflow'")
+	adopt(r, c.sibling("C26"), map[string]string{"L3": "W-irq"}, "a request that is dropped, delayed or made conditional breaks 'exactly one interrupt per overflow'")
 
 	// ---- W-regs
 	for _, reg := range []struct {
